@@ -1,132 +1,137 @@
 /-
-Soundness of the guard tableau of Model/Guards.lean (C17).
+Soundness of the guard decision procedure of Model/Guards.lean (C17).
 -/
 import TmVerif.Model.Guards
 namespace TmVerif.Guards
 open TmVerif.Facts
 
-/-- `v` extends the partial assignment `σ`. -/
-def Agrees (σ : Assign) (v : Nat → Bool) : Prop := ∀ n b, lookup σ n = some b → v n = b
+theorem isTT_eq {f : GF} (h : isTT f = true) : f = .tt := by
+  cases f <;> simp [isTT] at h ⊢
 
-theorem agrees_nil (v : Nat → Bool) : Agrees [] v := by
-  intro n b h; simp [lookup] at h
+theorem isFF_eq {f : GF} (h : isFF f = true) : f = .not .tt := by
+  cases f with
+  | not g => cases g <;> simp [isFF] at h ⊢
+  | _ => simp [isFF] at h
 
-theorem agrees_cons {σ : Assign} {v : Nat → Bool} (h : Agrees σ v) (a : Nat) : Agrees ((a, v a) :: σ) v := by
-  intro n b hl
-  simp only [lookup] at hl
-  by_cases e : (a == n) = true
-  · simp only [e, if_true, Option.some.injEq] at hl
-    have : a = n := by simpa using e
-    subst this; exact hl
-  · simp only [e] at hl
-    exact h n b hl
+@[simp] theorem isTT_tt : isTT GF.tt = true := rfl
+@[simp] theorem isFF_tt : isFF GF.tt = false := rfl
+@[simp] theorem isTT_nott : isTT (GF.not GF.tt) = false := rfl
+@[simp] theorem isFF_nott : isFF (GF.not GF.tt) = true := rfl
 
-theorem peval_sound {σ : Assign} {v : Nat → Bool} (h : Agrees σ v) :
-    ∀ (f : GF) (b : Bool), peval σ f = some b → eval v f = b := by
+theorem eval_ff (v : Nat → Bool) : eval v GF.ff = false := by simp [GF.ff, eval]
+
+theorem eval_sNot (v : Nat → Bool) (f : GF) : eval v (sNot f) = !eval v f := by
+  unfold sNot
+  by_cases h1 : isTT f = true
+  · have e := isTT_eq h1; subst e; simp [eval, GF.ff]
+  · by_cases h2 : isFF f = true
+    · have e := isFF_eq h2; subst e; simp [eval]
+    · simp [h1, h2, eval]
+
+theorem eval_sAnd (v : Nat → Bool) (f g : GF) : eval v (sAnd f g) = (eval v f && eval v g) := by
+  unfold sAnd
+  by_cases h1 : isFF f = true
+  · have e := isFF_eq h1; subst e; simp [eval, GF.ff]
+  · by_cases h2 : isFF g = true
+    · have e := isFF_eq h2; subst e; simp [eval, GF.ff]
+    · by_cases h3 : isTT f = true
+      · have e := isTT_eq h3; subst e; simp [h2, eval]
+      · by_cases h4 : isTT g = true
+        · have e := isTT_eq h4; subst e; simp [h1, h3, eval]
+        · simp [h1, h2, h3, h4, eval]
+
+theorem eval_sOr (v : Nat → Bool) (f g : GF) : eval v (sOr f g) = (eval v f || eval v g) := by
+  unfold sOr
+  by_cases h1 : isTT f = true
+  · have e := isTT_eq h1; subst e; simp [eval]
+  · by_cases h2 : isTT g = true
+    · have e := isTT_eq h2; subst e; simp [eval]
+    · by_cases h3 : isFF f = true
+      · have e := isFF_eq h3; subst e; simp [h2, eval]
+      · by_cases h4 : isFF g = true
+        · have e := isFF_eq h4; subst e; simp [h1, h3, eval]
+        · simp [h1, h2, h3, h4, eval]
+
+theorem assign_eval (v : Nat → Bool) (a : Nat) (b : Bool) (h : v a = b) :
+    ∀ f : GF, eval v (assign a b f) = eval v f := by
   intro f
   induction f with
-  | tt => intro b hb; simp [peval] at hb; simp [eval, hb]
-  | atom n => intro b hb; simp only [peval] at hb; simp only [eval]; exact h n b hb
-  | not f ih =>
-    intro b hb
-    simp only [peval] at hb
-    cases hf : peval σ f with
-    | none => simp [hf] at hb
-    | some c =>
-      simp only [hf, Option.some.injEq] at hb
-      simp only [eval, ih c hf]; exact hb
+  | tt => simp [assign]
+  | atom n =>
+    simp only [assign]
+    by_cases e : (n == a) = true
+    · have : n = a := by simpa using e
+      subst this
+      cases b <;> simp [eval, eval_ff, h]
+    · simp [e]
+  | not f ih => simp [assign, eval_sNot, eval, ih]
+  | and f g ihf ihg => simp [assign, eval_sAnd, eval, ihf, ihg]
+  | or f g ihf ihg => simp [assign, eval_sOr, eval, ihf, ihg]
+
+theorem simplify_eval (v : Nat → Bool) : ∀ f : GF, eval v (simplify f) = eval v f := by
+  intro f
+  induction f with
+  | tt => simp [simplify]
+  | atom n => simp [simplify]
+  | not f ih => simp [simplify, eval_sNot, eval, ih]
+  | and f g ihf ihg => simp [simplify, eval_sAnd, eval, ihf, ihg]
+  | or f g ihf ihg => simp [simplify, eval_sOr, eval, ihf, ihg]
+
+theorem conjuncts_eval (v : Nat → Bool) : ∀ f : GF, eval v f = true → ∀ g ∈ conjuncts f, eval v g = true := by
+  intro f
+  induction f with
+  | tt => intro _ g hg; simp [conjuncts] at hg
+  | atom n => intro h g hg; simp [conjuncts] at hg; subst hg; exact h
+  | not f _ => intro h g hg; simp [conjuncts] at hg; subst hg; exact h
+  | or f g _ _ => intro h k hk; simp [conjuncts] at hk; subst hk; exact h
   | and f g ihf ihg =>
-    intro b hb
-    simp only [peval] at hb
-    cases hf : peval σ f with
-    | none =>
-      cases hg : peval σ g with
-      | none => simp [hf, hg] at hb
-      | some d =>
-        cases d with
-        | true => simp [hf, hg] at hb
-        | false =>
-          simp only [hf, hg, Option.some.injEq] at hb
-          simp [eval, ihg false hg, ← hb]
-    | some c =>
-      cases c with
-      | false =>
-        have : b = false := by
-          cases hg : peval σ g with
-          | none => simp [hf, hg] at hb; exact hb
-          | some d => cases d <;> simp [hf, hg] at hb <;> exact hb
-        simp [eval, ihf false hf, this]
-      | true =>
-        cases hg : peval σ g with
-        | none => simp [hf, hg] at hb
-        | some d =>
-          cases d with
-          | true =>
-            simp only [hf, hg, Option.some.injEq] at hb
-            simp [eval, ihf true hf, ihg true hg, ← hb]
-          | false =>
-            simp only [hf, hg, Option.some.injEq] at hb
-            simp [eval, ihg false hg, ← hb]
-  | or f g ihf ihg =>
-    intro b hb
-    simp only [peval] at hb
-    cases hf : peval σ f with
-    | none =>
-      cases hg : peval σ g with
-      | none => simp [hf, hg] at hb
-      | some d =>
-        cases d with
-        | false => simp [hf, hg] at hb
-        | true =>
-          simp only [hf, hg, Option.some.injEq] at hb
-          simp [eval, ihg true hg, ← hb]
-    | some c =>
-      cases c with
-      | true =>
-        have : b = true := by
-          cases hg : peval σ g with
-          | none => simp [hf, hg] at hb; exact hb
-          | some d => cases d <;> simp [hf, hg] at hb <;> exact hb
-        simp [eval, ihf true hf, this]
-      | false =>
-        cases hg : peval σ g with
-        | none => simp [hf, hg] at hb
-        | some d =>
-          cases d with
-          | false =>
-            simp only [hf, hg, Option.some.injEq] at hb
-            simp [eval, ihf false hf, ihg false hg, ← hb]
-          | true =>
-            simp only [hf, hg, Option.some.injEq] at hb
-            simp [eval, ihg true hg, ← hb]
+    intro h k hk
+    simp only [eval, Bool.and_eq_true] at h
+    simp only [conjuncts, List.mem_append] at hk
+    rcases hk with hk | hk
+    · exact ihf h.1 k hk
+    · exact ihg h.2 k hk
 
-theorem closed_sound {axs : List GF} {u d : GF} {σ : Assign} {v : Nat → Bool} (h : Agrees σ v)
-    (hc : closed axs u d σ = true) (hax : ∀ a ∈ axs, eval v a = true) (hu : eval v u = true) :
+theorem closed_sound {axs : List GF} {u d : GF} {v : Nat → Bool}
+    (hc : closed axs u d = true) (hax : ∀ a ∈ axs, eval v a = true) (hu : eval v u = true) :
     eval v d = true := by
-  simp only [closed, Bool.or_eq_true, beq_iff_eq, List.any_eq_true] at hc
+  simp only [closed, Bool.or_eq_true, List.any_eq_true] at hc
   rcases hc with (hc | hc) | ⟨a, ha, hc⟩
-  · have := peval_sound h u false hc
-    rw [hu] at this; cases this
-  · exact peval_sound h d true hc
-  · have := peval_sound h a false hc
-    rw [hax a ha] at this; cases this
+  · rw [isFF_eq hc] at hu; simp [eval] at hu
+  · rw [isTT_eq hc]; simp [eval]
+  · have := hax a ha
+    rw [isFF_eq hc] at this; simp [eval] at this
 
-theorem search_sound (axs : List GF) (u d : GF) :
-    ∀ (as : List Nat) (σ : Assign), search axs u d as σ = true →
-      ∀ v : Nat → Bool, Agrees σ v → (∀ a ∈ axs, eval v a = true) → eval v u = true → eval v d = true := by
-  intro as
-  induction as with
-  | nil =>
-    intro σ hs v hv hax hu
-    exact closed_sound hv (by simpa [search] using hs) hax hu
-  | cons a as ih =>
-    intro σ hs v hv hax hu
-    simp only [search, Bool.or_eq_true, Bool.and_eq_true] at hs
-    rcases hs with hc | ⟨ht, hf⟩
-    · exact closed_sound hv hc hax hu
-    · cases hva : v a with
-      | true => exact ih _ ht v (by have := agrees_cons hv a; rwa [hva] at this) hax hu
-      | false => exact ih _ hf v (by have := agrees_cons hv a; rwa [hva] at this) hax hu
+theorem step_sound {axs : List GF} {v : Nat → Bool} (a : Nat) (b : Bool) (h : v a = b)
+    (hax : ∀ f ∈ axs, eval v f = true) : ∀ g ∈ step a b axs, eval v g = true := by
+  intro g hg
+  simp only [step, List.mem_flatMap] at hg
+  obtain ⟨f, hf, hgf⟩ := hg
+  exact conjuncts_eval v _ (by rw [assign_eval v a b h]; exact hax f hf) g hgf
+
+theorem search_sound : ∀ (k : Nat) (axs : List GF) (u d : GF), search k axs u d = true →
+    ∀ v : Nat → Bool, (∀ a ∈ axs, eval v a = true) → eval v u = true → eval v d = true := by
+  intro k
+  induction k with
+  | zero =>
+    intro axs u d hs v hax hu
+    exact closed_sound (by simpa [search] using hs) hax hu
+  | succ k ih =>
+    intro axs u d hs v hax hu
+    simp only [search, Bool.or_eq_true] at hs
+    rcases hs with hc | hs
+    · exact closed_sound hc hax hu
+    · cases hp : pick axs u d with
+      | none => simp [hp] at hs
+      | some a =>
+        simp only [hp, Bool.and_eq_true] at hs
+        cases hva : v a with
+        | true =>
+          have := ih _ _ _ hs.1 v (step_sound a true hva hax) (by rw [assign_eval v a true hva]; exact hu)
+          rwa [assign_eval v a true hva] at this
+        | false =>
+          have := ih _ _ _ hs.2 v (step_sound a false hva hax) (by rw [assign_eval v a false hva]; exact hu)
+          rwa [assign_eval v a false hva] at this
 
 /-- The checker is sound for ALL valuations of ALL atoms. -/
 theorem checkImp_sound (axs : List Ax) (u d : GF) (h : checkImp axs u d = true) :
@@ -134,15 +139,18 @@ theorem checkImp_sound (axs : List Ax) (u d : GF) (h : checkImp axs u d = true) 
       eval v u = true → eval v d = true := by
   intro v hax hu
   unfold checkImp at h
-  refine search_sound _ u d _ [] h v (agrees_nil v) ?_ hu
-  intro f hf
-  simp only [List.mem_map, List.mem_filter] at hf
-  obtain ⟨a, ⟨ha, _⟩, rfl⟩ := hf
-  have := hax a ha
-  simp only [Ax.formula, GF.imp, eval]
-  cases hh : eval v a.hyp with
-  | false => simp
-  | true => simp [this hh]
+  have := search_sound _ _ _ _ h v ?_ (by rw [simplify_eval]; exact hu)
+  · rwa [simplify_eval] at this
+  · intro g hg
+    simp only [List.mem_flatMap] at hg
+    obtain ⟨a, ha, hga⟩ := hg
+    refine conjuncts_eval v _ ?_ g hga
+    rw [simplify_eval]
+    have := hax a ha
+    simp only [Ax.formula, GF.imp, eval]
+    cases hh : eval v a.hyp with
+    | false => simp
+    | true => simp [this hh]
 
 /-- A counter-model found by `refutes` is one. -/
 theorem refutes_sound (axs : List Ax) (u d : GF) (t : List Nat) (h : refutes axs u d t = true) :
